@@ -290,6 +290,11 @@ def _zero_check(out):
         ok = not nz and [sit.facts.norm(s) for s in b.shape()] == [sit.facts.norm(s) for s in exp_shape]
         res.append((_sub(p), ok, "zero core of the operand's mode shape" if ok else
                     f"x * 0 must consist of zero cores of shape {exp_shape}; found shape {b.shape()} with non-zero blocks {nz}"))
+        dt = getattr(p.item, "dtype", "?")
+        okd = dt.startswith("dtype:x")
+        res.append((_sub(p) + ".dtype", okd, "zero core created with the operand's dtype" if okd else
+                    f"the zero cores of x * 0 are created with dtype `{dt}` instead of the operand's dtype: the result dtype differs from dense 0 * X "
+                    "for complex / float32 operands"))
     return res
 
 
